@@ -102,6 +102,7 @@ Fails(e) == CASE e.ev = "reset" -> Tag(PartitionOK(e.proj), "C15.partition")
               [] e.ev = "cflist" -> CFListFails(e)
               [] e.ev = "xlayer" -> XLayerFails(e)
               [] e.ev = "plan" -> PlanFails(e)
+              [] e.ev = "hang" -> <<e.prop \o ".hang">>    \* a call that never returned (recorded by the watchdog of the harness)
               [] OTHER -> <<"unknown-event">>
 
 Init == l = 1 /\ nfail = 0 /\ chans = <<>> /\ dl = <<>> /\ info = [extra |-> FALSE, cfmin |-> 0, cfmax |-> 0] /\ std0 = <<>>
